@@ -341,6 +341,75 @@ func strList(l []string) string {
 	return "[" + strings.Join(s, "; ") + "]"
 }
 
+// ---- the two inventory-policy filters (pkg/apply/filter) as guarded statement lists ----------------------------
+// A method body made of assignments, `if cond { ... }` without init/else whose bodies hold only further such ifs and
+// returns, and single-result returns, is flattened exactly into items (guards, is-return, text): an item runs when
+// all its guards hold at that moment (no assignment occurs inside an if body, so guards cannot change under it).
+func findMethod(f *ast.File, recv, name string) *ast.FuncDecl {
+	for _, d := range f.Decls {
+		fd, ok := d.(*ast.FuncDecl)
+		if !ok || fd.Recv == nil || fd.Name.Name != name || len(fd.Recv.List) != 1 {
+			continue
+		}
+		if id, ok := fd.Recv.List[0].Type.(*ast.Ident); ok && id.Name == recv {
+			return fd
+		}
+	}
+	return nil
+}
+
+func retText(e ast.Expr) string {
+	if c, ok := e.(*ast.CallExpr); ok { // a constructor call: the callee names the error class
+		return render(c.Fun)
+	}
+	return render(e)
+}
+
+func flatten(stmts []ast.Stmt, guards []string, top bool, out *[]string) {
+	item := func(ret bool, text string) {
+		b := "false"
+		if ret {
+			b = "true"
+		}
+		*out = append(*out, "("+strList(guards)+", ("+b+", "+coqStr(text)+"))")
+	}
+	for _, s := range stmts {
+		switch v := s.(type) {
+		case *ast.AssignStmt:
+			if !top {
+				item(true, "?assignment inside if: "+render(v))
+				continue
+			}
+			item(false, render(v))
+		case *ast.IfStmt:
+			if v.Init != nil || v.Else != nil {
+				item(true, "?if with init/else: "+render(v.Cond))
+				continue
+			}
+			g := append(append([]string(nil), guards...), render(v.Cond))
+			flatten(v.Body.List, g, false, out)
+		case *ast.ReturnStmt:
+			if len(v.Results) != 1 {
+				item(true, "?return: "+render(v))
+				continue
+			}
+			item(true, retText(v.Results[0]))
+		default:
+			item(true, "?stmt: "+render(s))
+		}
+	}
+}
+
+func filterBody(f *ast.File, recv string) string {
+	fd := findMethod(f, recv, "Filter")
+	if fd == nil {
+		return "[([], (true, " + coqStr("?missing "+recv+".Filter") + "))]"
+	}
+	var out []string
+	flatten(fd.Body.List, nil, true, &out)
+	return "[" + strings.Join(out, ";\n   ") + "]"
+}
+
 func main() {
 	repo := os.Getenv("VERIF_REPO")
 	if repo == "" {
@@ -408,6 +477,11 @@ func main() {
 	b.WriteString("(* clause = (case label, guard over `policy`, (result, error is nil)); second component = the return after the switch *)\n")
 	b.WriteString("Definition src_can_apply : list (string * option pexp * (bool * bool)) * (bool * bool) :=\n  " + policyFn(pol, "CanApply") + ".\n")
 	b.WriteString("Definition src_can_prune : list (string * option pexp * (bool * bool)) * (bool * bool) :=\n  " + policyFn(pol, "CanPrune") + ".\n")
+	af := parse(filepath.Join(repo, "pkg/apply/filter/inventory-policy-apply-filter.go"))
+	pf := parse(filepath.Join(repo, "pkg/apply/filter/inventory-policy-prune-filter.go"))
+	b.WriteString("\n(* pkg/apply/filter: the Filter methods of the two inventory-policy filters; item = (guards, (is return, text)) *)\n")
+	b.WriteString("Definition src_policy_apply_filter : list (list string * (bool * string)) :=\n  " + filterBody(af, "InventoryPolicyApplyFilter") + ".\n")
+	b.WriteString("Definition src_policy_prune_filter : list (list string * (bool * string)) :=\n  " + filterBody(pf, "InventoryPolicyPruneFilter") + ".\n")
 	if err := os.MkdirAll(filepath.Dir(out), 0o755); err != nil {
 		fmt.Fprintln(os.Stderr, err)
 		os.Exit(3)
